@@ -158,6 +158,13 @@ def driver_values(rng, shape, kind="positive"):
     if kind.startswith("scaled:"):
         # the same kinds at another order of magnitude (results are compared relatively, so magnitude must not matter)
         return driver_values(rng, shape, kind.split(":", 1)[1]) * 10.0 ** float(rng.integers(-12, 4))
+    if kind == "collapse":
+        # large early values, then a drop by ~15 orders of magnitude
+        v = rng.uniform(1.0, 100.0, size=shape)
+        k = max(1, shape[0] // 3)
+        v[:k] *= 1e12
+        v[k:] *= 1e-3
+        return v
     if kind == "positive":
         v = rng.uniform(0.0, 100.0, size=shape)
         if v.size > 3 and rng.random() < 0.5:
@@ -270,6 +277,19 @@ def c10_case(rec, hub, rng, tier):
                 cmp(tag + ":outflow", Q["outflow"], R["outflow"], "stock-driven-outflow-differs", scale=max(float(np.max(np.abs(x))), 1e-300))
                 cmp(tag + ":stock_by_cohort", Q["stock_by_cohort"], R["stock_by_cohort"], "stock-driven-stock-by-cohort-differs", scale=max(float(np.max(np.abs(R["stock"]))), 1e-300))
                 cmp(tag + ":outflow_by_cohort", Q["outflow_by_cohort"], R["outflow_by_cohort"], "stock-driven-outflow-by-cohort-differs", scale=max(float(np.max(np.abs(x))), 1e-300))
+        # the same object once more, a previously non-zero year of its inflow now exactly zero: the stock-driven inverse still agrees
+        if nt > 3:
+            x2 = np.array(x, dtype=float)
+            x2[int(rng.integers(1, nt - 1))] = 0.0
+            idm.inflow.values[...] = x2
+            idm.compute()
+            R2 = S.results_of(idm)
+            sd2 = make_stock(fd, cfg, "StockDrivenDSM", solver="manual", lm=build_lm(fd, cfg), stock=R2["stock"])
+            sd2.compute()
+            Q2 = S.results_of(sd2)
+            xs2 = max(float(np.max(np.abs(x2))), 1e-300)
+            cmp("recomputed-ID(zero year)->SD:outflow", Q2["outflow"], R2["outflow"], "recomputed-inflow-driven-outflow-differs-from-the-stock-driven-inverse", scale=xs2)
+            cmp("recomputed-ID(zero year)->SD:outflow_by_cohort", Q2["outflow_by_cohort"], R2["outflow_by_cohort"], "recomputed-inflow-driven-cohort-outflow-differs-from-the-stock-driven-inverse", scale=xs2)
         # arbitrary stock -> inflow -> stock
         pres = driver_values(rng, cfg["shape"], str(rng.choice(["stock", "growing", "scaled:growing"])))
         res = {}
@@ -671,6 +691,41 @@ def c17_system_case(rec, hub, rng, tier, i):
                 if not ok:
                     rec.violation(M17S, f"scenario-{k if k == 0 else 'n'}-result-differs-from-fresh-system:{sd['cls']}", dict(quantity=q, scenario=k, stock=sd, rel_diff=rel, time_items=items))
                     break
+
+
+def c17_shared_model_case(rec, hub, rng, tier):
+    """several stocks share one lifetime-model object; after every re-parameterisation EACH of them must follow"""
+    fd = hub.fd
+    cfg, lm = make_solvable(fd, rng, tier)
+    if cfg is None:
+        return
+    kinds = [("InflowDrivenDSM", None, "inflow", "positive"), ("StockDrivenDSM", "manual", "stock", "stock"), ("InflowDrivenDSM", None, "inflow", "positive"), ("StockDrivenDSM", "lapack", "stock", "stock")]
+    n = int(rng.integers(2, 4))
+    stocks = []
+    for k in range(n):
+        cn, solver, attr, kind = kinds[int(rng.integers(0, len(kinds)))]
+        stocks.append((make_stock(fd, cfg, cn, solver=solver, lm=lm, **{attr: driver_values(rng, cfg["shape"], kind)}), attr))
+    told = {k: np.array(v, dtype=float) for k, v in cfg["truth"].items()}
+    for rnd in range(3):
+        with quiet():
+            if rnd:
+                told = {k: np.maximum(np.array(v) * rng.uniform(1.05, 1.5), v) if k in ("mean", "weibull_scale") else np.array(v) for k, v in told.items()}
+                lm.set_prms(**{k: np.array(v) for k, v in told.items()})
+            order = rng.permutation(n)
+            for j in order:
+                stocks[j][0].compute()
+            for j in order:
+                s_, attr = stocks[j]
+                with hub.pause():
+                    twin = S.fresh_stock(fd, s_, lm=S.clone_lm(fd, lm, prms=told), **{attr: getattr(s_, attr).values})
+                    twin.compute()
+                a, b = S.results_of(s_), S.results_of(twin)
+                rec.event(M17, sig=f"shared-lm|{type(s_).__name__}|{cfg['model']}|round={rnd}|n={n}", cls=f"shared-lifetime-model|{type(s_).__name__}|round={rnd}")
+                for q in a:
+                    ok, rel = allclose_scaled(a[q], b[q], 1e-12)
+                    if not ok:
+                        rec.violation(M17, f"stock-sharing-a-lifetime-model-differs-from-fresh-object:round-{'0' if rnd == 0 else 'n'}", dict(quantity=q, cls=type(s_).__name__, model=cfg["model"], round=rnd, position_in_compute_order=int(list(order).index(j)), rel_diff=rel))
+                        break
 
 
 def c17_example_case(rec, hub, rng):
